@@ -207,8 +207,8 @@ func init() {
 	})
 }
 
-// ids built from the atoms a, b, c
-var c18composed = []string{"a", "b", "c", "a-b", "b-a", "a-c", "c-a", "b-c", "c-b", "a-a", "b-b", "a-b-c", "a-b-a", "b-a-b", "c-a-b", "b-c-a", "a-a-b", "a-b-b", "b-b-a", "b-a-a", "a_b", "b_a", "a-b_c", "a_b-c", "ab", "ba", "a-", "b-", "a--b", "_a"}
+// ids built from the atoms a, b, c, and ids that look like YAML keywords (valid job ids all the same)
+var c18composed = []string{"a", "b", "c", "a-b", "b-a", "a-c", "c-a", "b-c", "c-b", "a-a", "b-b", "a-b-c", "a-b-a", "b-a-b", "c-a-b", "b-c-a", "a-a-b", "a-b-b", "b-b-a", "b-a-a", "a_b", "b_a", "a-b_c", "a_b-c", "ab", "ba", "a-", "b-", "a--b", "_a", "null", "true", "false", "on", "yes", "nil", "n", "y"}
 
 var c18names = []string{"a", "b", "c", "d", "e"}
 
